@@ -118,7 +118,7 @@ package gorm
 //@   modifies stmt.Clauses[*], stmt.SQL, stmt.Vars, stmt.Dest, stmt.DB.Error
 
 //@ func (*Statement).BuildCondition
-//@   tags C06
+//@   trusted reflection-driven conversion of condition forms; frame assumed (see finding F7 for the *DB argument case)
 //@   modifies stmt.DB.Error
 //@   ensures len(result) == 0 || fresh(result)
 
@@ -605,3 +605,10 @@ package gorm
 //@   in gorm.(*Statement).BuildCondition
 //@   min-sites 1
 //@   assert not-on-a-reusable-handle: arg0.clone <= 0 [C06]
+//@ # BuildCondition's overall frame is trusted (reflection), but its element stores are swept: a condition list is
+//@ # only ever written in an array the call allocated (finding F14: the WHERE list of a *DB argument was rewritten
+//@ # in place).
+//@ site condition-lists-written-in-own-arrays
+//@   match storeelem clause.Expression
+//@   in gorm.(*Statement).BuildCondition
+//@   assert array-allocated-by-this-call: fresh(recv) [C06]
